@@ -3,7 +3,7 @@
    the instrumented rope did at every call site; the comparison is computed here by vm_compute. *)
 From Coq Require Import List NArith ZArith Bool.
 From RopeVerif.Lib Require Import Text.
-From RopeVerif.C04 Require Import Inline Expr Call Receiver.
+From RopeVerif.C04 Require Import Inline Expr Call Rename Splice Receiver.
 Import ListNotations.
 
 Definition pairs_eqb (a b : list (N * N)) : bool :=
@@ -164,7 +164,9 @@ Definition run_vcase (c : vcase) : N :=
 (* function inlining: the definition text produced for a call site (parameters inlined into the body) *)
 Record dsite := mkD {
   ds_hdr    : list (N * N);              (* the header rope computed for the site (compared above) *)
-  ds_result : option (list stmt)         (* _calculate_definition's text, `__N__` prefixes stripped, parsed *)
+  ds_host   : list N;                    (* names of the scope of the call site (CPython symtable) *)
+  ds_ptbl   : list (N * N);              (* guest name -> its "__N__" spelling *)
+  ds_result : option (list stmt)         (* _calculate_definition's text, parsed (prefixes kept) *)
 }.
 Record dcase := mkDC {
   dc_tbl   : tok_table;                  (* argument/default token -> expression *)
@@ -172,16 +174,20 @@ Record dcase := mkDC {
   dc_sites : list dsite
 }.
 
-(* code: 0 agree, 1 differs; + 10 * (1 if header names distinct and args_closed) + 20 * (side_header) *)
+(* code: 0 agree, 1 differs; + 10 if the site is in the domain of C04_definition_preserves; + 20 if the guest
+   names are renamed at this site (conflict with the host scope) *)
 Definition run_dsite (tbl : tok_table) (body : list stmt) (s : dsite) : N :=
   let hdr := ds_hdr s in
-  let code := match inline_header (map fst hdr) (guest tbl hdr body), ds_result s with
+  let names := all_names hdr body in
+  let code := match calculate_definition tbl hdr body (ds_host s) (ds_ptbl s), ds_result s with
               | Some p, Some q => if prog_eqb p q then 0 else 1
               | None, None => 0
               | _, _ => 1
               end%N in
-  (code + (if nodupN (map fst hdr) && args_closed tbl hdr then 10 else 0)
-        + (if side_header (map fst hdr) (guest tbl hdr body) then 20 else 0))%N.
+  let c := conflict names (ds_host s) in
+  (code + (if (if c then side_renamed tbl hdr body (table_ren (ds_ptbl s) names) else side_call tbl hdr body)
+           then 10 else 0)
+        + (if c then 20 else 0))%N.
 
 Definition run_dcase (c : dcase) : list N := map (run_dsite (dc_tbl c) (dc_body c)) (dc_sites c).
 
@@ -220,3 +226,34 @@ Fixpoint texts_eqb (a b : list text) : bool :=
 Definition run_rcase (c : rcase) : N :=
   if texts_eqb (read_args (r_implicit c) (r_head c) (r_pos c)) (r_obs c) then 0%N else 1%N.
 Definition rresults (cs : list rcase) : list (N * N) := nonzero (number_from run_rcase 0 cs).
+
+(* ------------------------------------------------------------------------------------------------ *)
+(* whole straight-line host modules with one call site (statement-level or assignment-level) *)
+Record scase := mkS {
+  sc_pre    : list stmt;
+  sc_kind   : site_kind;
+  sc_post   : list stmt;
+  sc_tbl    : tok_table;
+  sc_hdr    : list (N * N);
+  sc_body   : list stmt;
+  sc_ret    : option (list (bool * list atom));
+  sc_host   : list N;
+  sc_ptbl   : list (N * N);
+  sc_result : option (list stmt)      (* the module after InlineMethod(remove=True), parsed *)
+}.
+(* code: 0 agree, 1 differs; + 10 if domain_site; + 20 if frame_ok *)
+Definition run_scase (c : scase) : N :=
+  let m := inline_host (sc_pre c) (sc_kind c) (sc_post c) (sc_tbl c) (sc_hdr c) (sc_body c) (sc_ret c)
+                       (sc_host c) (sc_ptbl c) in
+  let code := match m, sc_result c with
+              | Some p, Some q => if prog_eqb p q then 0 else 1
+              | None, None => 0
+              | _, _ => 1
+              end%N in
+  let fr := match inline_site (sc_kind c) (sc_tbl c) (sc_hdr c) (sc_body c) (sc_ret c) (sc_host c) (sc_ptbl c) with
+            | Some d => frame_ok (sc_kind c) d (sc_post c)
+            | None => false
+            end in
+  (code + (if domain_site (sc_tbl c) (sc_hdr c) (sc_body c) (sc_ret c) (sc_host c) (sc_ptbl c) then 10 else 0)
+        + (if fr then 20 else 0))%N.
+Definition sresults (cs : list scase) : list (N * N) := number_from run_scase 0 cs.
